@@ -4,9 +4,10 @@ import TongoProofs.C16
 namespace Tongo.C02
 open Tongo Tongo.CellHashLemmas
 
-/-- **The hash field of a decoded message / transaction is the hash of the definition** (composition with C16, agent
-msg: `C16.msg_hash_is_cell_hash`, `C16.tx_hash_is_cell_hash` say the field is `Cell.reprHash` of the source cell; C02
-says that is the representation hash of the TON definition). -/
+/-- **The hash field of a decoded message / transaction is the hash of the definition**, tree-level form (composition
+with C16's tree-level lemmas `msg_hash_tree_level`, `tx_capture_tree_level`: the field is `Cell.reprHash` of the source
+cell; C02 says that is the representation hash of the TON definition). The form over mutable cells with cursors and a
+hasher is `msg_heap_hash_is_spec` below. -/
 theorem msg_tx_hash_is_spec (H : List UInt8 → List UInt8) (c : Cell) (hwf : Spec.WFExotic c)
     (hd : Spec.tooDeep c = false) :
     (∀ m, Message.unmarshalMessage H c = .ok m → m.hash = Spec.reprHash H c) ∧
@@ -22,5 +23,17 @@ theorem msg_tx_hash_is_spec (H : List UInt8 → List UInt8) (c : Cell) (hwf : Sp
     rw [e] at h1
     injection h1 with h1; exact ⟨h1.symm, h2⟩
 
+/-- **…on mutable cells, from any cursor state, with any valid hasher table** (composition with C16's heap theorem
+`C16.msg_hash_is_cell_hash`): `Message.UnmarshalTLB` on a well-formed cell within the depth limit reports as hash the
+representation hash of the DEFINITION (`Spec.reprHash`) of the tree the pointer denotes, whatever has been read from
+the cell or its descendants before and whether or not the decoder carries a caching hasher. -/
+theorem msg_heap_hash_is_spec (H : List UInt8 → List UInt8) (fuel : Nat) (d : Message.Dec) (p : Nat) (c : Cell)
+    (mc : Message.MsgCell) (hv : d.Valid H) (ht : Memo.tree d.heap.rows fuel p = some c) (hp : d.heap p = some mc)
+    (hwf : Spec.WFExotic c) (hd : Spec.tooDeep c = false) :
+    Message.outFst (Message.unmarshalMessageH H fuel d p) =
+      (Message.decodeMsg (Message.rowStore d.heap.rows) ⟨mc.row.bits, mc.row.refs⟩).bind fun m =>
+        .ok ⟨Spec.reprHash H c, m⟩ := by
+  rw [C16.msg_hash_is_cell_hash H fuel d p c mc hv ht hp, reprHash_eq_spec H c hwf hd]
+  rfl
 
 end Tongo.C02
